@@ -220,6 +220,68 @@ def strip_doc(tree):
 
 
 # ------------------------------------------------------------------------------------------
+# Leaf types with their own repr (no pyglove needed)
+# ------------------------------------------------------------------------------------------
+
+import enum  # pylint: disable=wrong-import-position
+
+
+class Tagged(int):
+  """An int subclass whose repr is user text."""
+
+  def __new__(cls, v, tag):
+    o = int.__new__(cls, v)
+    o.tag = tag
+    return o
+
+  def __repr__(self):
+    return self.tag
+
+  def __reduce__(self):
+    return (Tagged, (int(self), self.tag))
+
+
+class Qty(float):
+  """A float subclass whose repr is user text."""
+
+  def __new__(cls, v, tag):
+    o = float.__new__(cls, v)
+    o.tag = tag
+    return o
+
+  def __repr__(self):
+    return self.tag
+
+  def __reduce__(self):
+    return (Qty, (float(self), self.tag))
+
+
+class Color(enum.IntEnum):
+  RED = 1
+  GREEN = 2
+
+
+class Opaque:
+  """A non-symbolic, non-container object whose repr is user text."""
+
+  def __init__(self, tag):
+    self.tag = tag
+
+  def __repr__(self):
+    return self.tag
+
+  def __eq__(self, other):
+    return isinstance(other, Opaque) and other.tag == self.tag
+
+  def __hash__(self):
+    return hash(self.tag)
+
+
+CUSTOM_LEAVES = {'tagged': ('num', 'Tagged'), 'qty': ('num', 'Qty'), 'intenum': ('num', 'Color'),
+                 'opaque': ('opaque', 'Opaque')}
+LEAF_TYPES = ('str', 'int', 'float', 'bool', 'none') + tuple(CUSTOM_LEAVES)
+
+# ------------------------------------------------------------------------------------------
 # Wire helpers
 # ------------------------------------------------------------------------------------------
 
@@ -376,6 +438,15 @@ def gen_key(rng, used):
 
 
 def gen_leaf(rng):
+  if rng.chance(0.12):
+    k = rng.below(4)
+    if k == 0:
+      return {'t': 'tagged', 'v': rng.randint(0, 9), 'tag': gen_string(rng)}
+    if k == 1:
+      return {'t': 'qty', 'v': repr(rng.choice([0.5, 2.0])), 'tag': gen_string(rng)}
+    if k == 2:
+      return {'t': 'intenum', 'v': rng.choice(['RED', 'GREEN'])}
+    return {'t': 'opaque', 'tag': gen_string(rng)}
   r = rng.below(10)
   if r < 5:
     if rng.chance(0.15):
@@ -554,6 +625,55 @@ def gen_xopts(rng, value):
   return o
 
 
+SCOPE_OPTS = ('enable_summary', 'enable_summary_for_str', 'max_summary_len_for_str', 'enable_summary_tooltip',
+              'enable_key_tooltip', 'key_style', 'collapse_level', 'include_keys', 'exclude_keys')
+
+
+def gen_history(rng):
+  """A sequence of renders inside one enclosing `pg.view_options` scope; some steps add per-call
+  options or a nested scope. Each render must be what it would be on a fresh options state."""
+  n = rng.randint(2, 4)
+  values = [gen_value(rng, rng.randint(1, 2)) for _ in range(n)]
+  values = [v if child_keys(v) else {'t': 'dict', 'items': [[gen_key(rng, []), v]]} for v in values]
+
+  def pick(avail, value, k):
+    out = {}
+    for name in rng.sample(avail, min(k, len(avail))):
+      if name == 'enable_summary':
+        out[name] = rng.choice([True, False])
+      elif name in ('enable_summary_for_str', 'enable_summary_tooltip', 'enable_key_tooltip'):
+        out[name] = False
+      elif name == 'max_summary_len_for_str':
+        out[name] = rng.choice([0, 3, 10, 200])
+      elif name == 'key_style':
+        out[name] = 'label'
+      elif name == 'collapse_level':
+        out[name] = rng.choice([0, 2, 3])
+      else:
+        keys = child_keys(value)
+        out[name] = [rng.choice(keys) for _ in range(rng.randint(1, 2))] if keys else []
+    return out
+
+  avail = list(SCOPE_OPTS)
+  outer = pick([a for a in avail if a not in ('include_keys', 'exclude_keys')], values[0], rng.below(3))
+  steps = []
+  for i, v in enumerate(values):
+    rest = [a for a in avail if a not in outer]
+    inner = pick(rest, v, rng.randint(1, 2)) if rng.chance(0.45) else None
+    rest = [a for a in rest if not inner or a not in inner]
+    call = pick(rest, v, rng.randint(1, 2)) if (rng.chance(0.5) or (inner is None and i == 0)) else {}
+    steps.append({'value': v, 'opts': call, 'inner': inner})
+  return {'op': 'history', 'outer': outer, 'steps': steps}
+
+
+def merged_opts(case, step):
+  o = dict(DEFAULT_OPTS)
+  o.update(case['outer'])
+  o.update(step['inner'] or {})
+  o.update(step['opts'])
+  return o
+
+
 def gen_control(rng):
   k = rng.below(4)
   css = lambda: [rng.choice(CSS) for _ in range(rng.below(3))]
@@ -721,6 +841,10 @@ def strings_of(v, out=None):
   out = [] if out is None else out
   if v['t'] == 'str':
     out.append(v['v'])
+  if 'tag' in v:
+    out.append(v['tag'])
+  if v['t'] == 'intenum':
+    out.append('<Color.%s: 1>' % v['v'])      # its repr has metacharacters
   for k in child_keys(v):
     if isinstance(k, str) and v['t'] != 'obj':
       out.append(k)
@@ -785,7 +909,7 @@ class C20(Prop):
     n_values = 330 if quick else 6000
     for i in range(n_values):
       v = gen_value(rng, rng.randint(0, 3))
-      if v['t'] in ('str', 'int', 'float', 'bool', 'none') and rng.chance(0.7):
+      if v['t'] in LEAF_TYPES and rng.chance(0.7):
         v = gen_value(rng, 2)
       yield {'op': 'render', 'value': v, 'opts': dict(DEFAULT_OPTS)}
       for _ in range(3):
@@ -822,6 +946,14 @@ class C20(Prop):
       yield {'op': 'jsescape', 's': gen_js_string(rng)}
     for _ in range(200 if quick else 3000):
       yield gen_update(rng)
+    for _ in range(150 if quick else 2500):
+      yield gen_history(rng)
+    for _ in range(6 if quick else 40):
+      h = gen_history(rng)
+      if not h['outer']:
+        h['outer'] = {'key_style': 'label'}
+      h['fresh_process'] = True
+      yield h
 
   # -- model side ---------------------------------------------------------------------------
   def model_request(self, case):
@@ -844,21 +976,47 @@ class C20(Prop):
       if tree is None:
         return None
       wire_opts = {k: o[k] for k in MODEL_OPTS}
+
+      def wire_pred(pred):
+        if 'paths' in pred:
+          return {'paths': [[key_wire(k) for k in q] for q in pred['paths']]}
+        if 'not' in pred:
+          return {'not': wire_pred(pred['not'])}
+        if 'or' in pred:
+          return {'or': [wire_pred(q) for q in pred['or']]}
+        return pred
+
+      for f, g, dflt in (('include_keys', 'include_p', None), ('exclude_keys', 'exclude_p', None),
+                         ('key_style', 'key_style_p', 'summary'), ('uncollapse', 'uncollapse_p', [])):
+        if is_pred(o[f]):
+          wire_opts[g] = wire_pred(o[f]['pred'])
+          wire_opts[f] = dflt
       for f in ('highlight', 'lowlight'):
         wire_opts[f] = [] if o[f] is None else [[key_wire(k) for k in q] for q in o[f]['pred']['paths']]
       for f in ('key_color', 'summary_color'):
         wire_opts[f] = None if o[f] is None else [None if x is None else cps(x) for x in o[f]]
       wire_opts['title'] = None if o['title'] is None else cps(o['title'])
       wire_opts['css_classes'] = [cps(x) for x in (o['css_classes'] or [])]
-      wire_opts['uncollapse'] = [[key_wire(k) for k in p] for p in o['uncollapse']]
+      wire_opts['uncollapse'] = [[key_wire(k) for k in p] for p in wire_opts['uncollapse']]
       wire_opts['name'] = None if o['name'] is None else key_wire(o['name'])
       for f in ('include_keys', 'exclude_keys'):
-        wire_opts[f] = None if o[f] is None else [key_wire(k) for k in o[f]]
+        wire_opts[f] = None if wire_opts[f] is None else [key_wire(k) for k in wire_opts[f]]
       return {'op': 'render', 'opts': wire_opts, 'tree': tree}
     if op == 'control':
       return self._control_request(case)
     if op == 'jsescape':
       return {'op': 'jsescape', 's': cps(case['s'])}
+    if op == 'history':
+      items = []
+      for st in case['steps']:
+        r = self.model_request({'op': 'render', 'value': st['value'], 'opts': merged_opts(case, st)})
+        if r is None:
+          return None
+        items.append({'opts': r['opts'], 'tree': r['tree']})
+      for st in case['steps']:        # the plain renders after the scopes: default options
+        r = self.model_request({'op': 'render', 'value': st['value'], 'opts': dict(DEFAULT_OPTS)})
+        items.append({'opts': r['opts'], 'tree': r['tree']})
+      return {'op': 'renders', 'items': items}
     if op == 'update':
       # the literals the real code emits for this update (obtained in this process; addresses renumbered)
       self.setup_impl()
@@ -919,13 +1077,26 @@ class C20(Prop):
 
   @staticmethod
   def modelled(o):
-    """Is this option record inside the Lean model? Callable options other than path-set
-    highlight / lowlight filters, child_config, extra_flags and debug are checked by the oracle only."""
+    """Is this option record inside the Lean model? child_config, extra_flags, debug, callable colours
+    and filters that look at the value's type are checked by the oracle only."""
     o = full_opts(o)
     if o['child_config'] is not None or o['extra_flags'] is not None or o['debug']:
       return False
-    if any(is_pred(o[k]) for k in MODEL_OPTS + ('key_color', 'summary_color')):
+    if any(is_pred(o[k]) for k in ('key_color', 'summary_color')):
       return False
+
+    def path_only(pred):
+      if 'type' in pred:
+        return False
+      if 'not' in pred:
+        return path_only(pred['not'])
+      if 'or' in pred:
+        return all(path_only(q) for q in pred['or'])
+      return True
+
+    for f in ('include_keys', 'exclude_keys', 'key_style', 'uncollapse'):
+      if is_pred(o[f]) and not path_only(o[f]['pred']):
+        return False
     for f in ('highlight', 'lowlight'):
       if o[f] is not None and set(o[f]['pred']) != {'paths'}:
         return False
@@ -949,8 +1120,11 @@ class C20(Prop):
             'p': cps(utils.format(kp, root_path=kp, **fmt)),
             'tip': cps(utils.format(value, root_path=kp, **fmt))}
     t = spec['t']
-    if t in ('str', 'int', 'float', 'bool', 'none'):
+    if t in LEAF_TYPES:
       node['leaf'] = t
+      if t in CUSTOM_LEAVES:
+        cls = type(value).__name__
+        node['leaf'] = [CUSTOM_LEAVES[t][0], cps(cls), cps(utils.camel_to_snake(cls, '-'))]
       if t == 'str':
         node['repr'] = cps(repr(value))
         node['raw'] = cps(value)
@@ -1004,6 +1178,14 @@ class C20(Prop):
       return bool(spec['v'])
     if t == 'none':
       return None
+    if t == 'tagged':
+      return Tagged(int(spec['v']), spec['tag'])
+    if t == 'qty':
+      return Qty(float(spec['v']), spec['tag'])
+    if t == 'intenum':
+      return Color[spec['v']]
+    if t == 'opaque':
+      return Opaque(spec['tag'])
     if t == 'dict':
       return {k: self._build(v) for k, v in spec['items']}
     if t == 'pgdict':
@@ -1088,6 +1270,10 @@ class C20(Prop):
     t = spec['t']
     if t == 'str':
       return {'t': 'str', 'v': 'x' * len(spec['v'])}
+    if 'tag' in spec:
+      b = dict(spec)
+      b['tag'] = 'x' * len(spec['tag'])
+      return b
     if t in ('dict', 'pgdict'):
       return {'t': t, 'items': [[self._rekey(k, table), self._benign(v, table)] for k, v in spec['items']]}
     if t == 'obj':
@@ -1136,7 +1322,68 @@ class C20(Prop):
               'escaped': e, 'read': r}
     if op == 'update':
       return self._impl_update(case)
+    if op == 'history':
+      return self._impl_history(case)
     raise ValueError(op)
+
+  def _impl_history(self, case):
+    import contextlib
+    if case.get('fresh_process'):
+      # the same history in a brand-new interpreter: nothing an earlier render left behind can help or hide
+      import subprocess
+      import sys
+      from harness.common import framework
+      c = {k: v for k, v in case.items() if k != 'fresh_process'}
+      code = ('import sys, json; sys.path[:0] = [%r, %r]; from harness import c20; P = c20.PROP; P.setup_impl(); '
+              'print(json.dumps(P._impl_history(json.load(sys.stdin))))' % (framework.VERIF, framework.REPO))
+      p = subprocess.run([sys.executable, '-c', code], input=json.dumps(c), capture_output=True, text=True, timeout=120)
+      if p.returncode != 0:
+        raise RuntimeError('fresh-process history failed: %s' % p.stderr[-400:])
+      return json.loads(p.stdout.strip().split('\n')[-1])
+    import pyglove as pg
+
+    def sub(d, step):
+      kw = self._kwargs(merged_opts(case, step))
+      return {k: kw[k] for k in d}
+
+    values = [self._build(st['value']) for st in case['steps']]
+    before = [self._snapshot(v) for v in values]
+
+    def run(i, st):
+      with contextlib.ExitStack() as stack:
+        if st['inner']:
+          stack.enter_context(pg.view_options(**sub(st['inner'], st)))
+        return pg.to_html_str(values[i], content_only=True, **sub(st['opts'], st))
+
+    try:
+      seq = []
+      with pg.view_options(**sub(case['outer'], case['steps'][0])):
+        for i, st in enumerate(case['steps']):
+          seq.append(run(i, st))
+      # after every scope has been left: a plain render must be the default render
+      after = [pg.to_html_str(v, content_only=True) for v in values]
+      explicit = [pg.to_html_str(v, content_only=True, **self._kwargs(DEFAULT_OPTS)) for v in values]
+      fresh = []
+      for i, st in enumerate(case['steps']):
+        with pg.view_options(**sub(case['outer'], st)):
+          fresh.append(run(i, st))
+    except Exception as e:   # pylint: disable=broad-except
+      return {'error': type(e).__name__, 'message': str(e)[:200]}
+    steps = []
+    for i, st in enumerate(case['steps']):
+      tree, why = strict_parse(seq[i])
+      missing = []
+      if tree is not None:
+        missing = self._missing({'value': st['value'], 'opts': merged_opts(case, st)}, texts_of(tree))
+      steps.append({'ok': tree is not None, 'why': why, 'same_as_fresh': seq[i] == fresh[i], 'missing': missing})
+    after_missing = []
+    for i, st in enumerate(case['steps']):
+      tree, _ = strict_parse(after[i])
+      if tree is not None:
+        after_missing += self._missing({'value': st['value'], 'opts': dict(DEFAULT_OPTS)}, texts_of(tree))
+    return {'steps': steps, 'unchanged': [self._snapshot(v) for v in values] == before,
+            'after_same': after == explicit, 'after_missing': after_missing,
+            'model': {'htmls': seq + after}}
 
   def _impl_update(self, case):
     """Renders an interactive control, performs an update and reads every user-text literal of the
@@ -1292,7 +1539,7 @@ class C20(Prop):
 
     def visit(spec, path):
       t = spec['t']
-      if t in ('str', 'int', 'float', 'bool', 'none'):
+      if t in LEAF_TYPES:
         if t == 'str':
           v = spec['v']
           shown = repr(v) if len(v) < o['max_summary_len_for_str'] else v
@@ -1300,6 +1547,11 @@ class C20(Prop):
           shown = repr(float(spec['v']))
         elif t == 'none':
           shown = 'None'
+        elif t in ('tagged', 'qty', 'opaque'):
+          shown = spec['tag']          # their repr IS the user text
+        elif t == 'intenum':
+          m = Color[spec['v']]
+          shown = next((x for x in (str(int(m)), repr(m), str(m)) if x in have), repr(m))
         else:
           shown = repr(bool(spec['v']) if t == 'bool' else int(spec['v']))
         if shown and shown not in have:
@@ -1397,6 +1649,16 @@ class C20(Prop):
       if a['read'] != model_out['read']:
         return 'JS literal readers differ on %r: python=%s lean=%s' % (impl_out['escaped'], a['read'], model_out['read'])
       return None
+    if op == 'history':
+      b = [None if h is None else uncps(h) for h in model_out['htmls']]
+      for i, (x, y) in enumerate(zip(a['htmls'], b)):
+        if x != y:
+          k = 0
+          while y is not None and k < min(len(x), len(y)) and x[k] == y[k]:
+            k += 1
+          return 'render #%d of the history differs from the model at %d: impl=…%r model=…%r' % (
+              i, k, x[max(0, k - 30):k + 50], (y or '')[max(0, k - 30):k + 50])
+      return None
     if op == 'update':
       b = [None if r is None else uncps(r['value']) for r in model_out['reads']]
       if a['reads'] != b:
@@ -1448,6 +1710,32 @@ class C20(Prop):
       return None
     if op == 'update':
       return self._oracle_update(case, out)
+    if op == 'history':
+      if 'error' in out:
+        return {'signature': 'render-raises:' + out['error'], 'what': 'a render of the history raised: %s' % out.get('message')}
+      for i, st in enumerate(out['steps']):
+        if not st['ok']:
+          return {'signature': 'not-well-formed', 'what': 'render #%d of the history: %s' % (i, st['why'])}
+        real_missing = [m for m in st['missing'] if not (m['what'] == 'key' and m.get('summary_disabled'))]
+        if not st['same_as_fresh']:
+          return {'signature': 'render-depends-on-history',
+                  'what': 'render #%d inside the enclosing view_options scope differs from the same render on a fresh '
+                          'options state (options of earlier renders / inner scopes leaked)%s' % (
+                              i, '; missing: %r' % [m['text'] for m in real_missing][:4] if real_missing else '')}
+        if real_missing:
+          m = real_missing[0]
+          return {'signature': m['what'] + '-missing',
+                  'what': 'render #%d of the history: %s text %r is not a text node of the output' % (i, m['what'], m['text'])}
+        for m in st['missing']:
+          return {'signature': 'key-missing:summary-disabled', 'what': 'key %r dropped (summary disabled)' % m['text']}
+      if not out['after_same'] or out['after_missing']:
+        return {'signature': 'render-depends-on-history',
+                'what': 'after all view_options scopes were left, a plain render differs from the render with default '
+                        'options (scope options leaked)%s' % (
+                            '; missing: %r' % [m['text'] for m in out['after_missing']][:4] if out['after_missing'] else '')}
+      if not out['unchanged']:
+        return {'signature': 'value-modified', 'what': 'a value changed by rendering'}
+      return None
     if op == 'control':
       return self._oracle_control(case, out)
     # render
@@ -1555,6 +1843,8 @@ class C20(Prop):
     op = case['op']
     if op in ('escape', 'parse'):
       return has_meta(case['s'])
+    if op == 'history':
+      return any(st['inner'] or st['opts'] for st in case['steps'][:-1])
     if op == 'jsescape':
       return any(c in case['s'] for c in '\\"\n\r\t')
     if op == 'update':
@@ -1579,6 +1869,18 @@ class C20(Prop):
                              'well-formed' if out['model']['doc'] is not None else 'malformed-children'))
     elif op == 'control':
       h.append('control:' + case['kind'])
+    elif op == 'history':
+      h.append('history-steps:%d' % len(case['steps']))
+      if case.get('fresh_process'):
+        h.append('history:fresh-process')
+      h.append('history-outer-opts:%d' % len(case['outer']))
+      if any(st['inner'] for st in case['steps']):
+        h.append('history:nested-scope')
+      if any(st['opts'] for st in case['steps']):
+        h.append('history:per-call-options')
+      for st in case['steps']:
+        for k in list(st['opts']) + list(st['inner'] or {}):
+          h.append('history-opt:' + k)
     elif op == 'update':
       h.append('update:' + case['kind'])
       h.append('update-literals:%d' % len(out.get('lits', [])))
@@ -1632,6 +1934,25 @@ class C20(Prop):
     return h
 
   def shrink_candidates(self, case):
+    if case['op'] == 'history':
+      for i in range(len(case['steps'])):
+        if len(case['steps']) > 2:
+          c = json.loads(json.dumps(case))
+          del c['steps'][i]
+          yield c
+      for k in list(case['outer']):
+        c = json.loads(json.dumps(case))
+        del c['outer'][k]
+        yield c
+      for i, st in enumerate(case['steps']):
+        for part in ('opts', 'inner'):
+          for k in list(st[part] or {}):
+            c = json.loads(json.dumps(case))
+            del c['steps'][i][part][k]
+            if part == 'inner' and not c['steps'][i][part]:
+              c['steps'][i][part] = None
+            yield c
+      return
     if case['op'] != 'render':
       return
     v = case['value']
